@@ -21,7 +21,10 @@ RULE = (
     "one or two stack levels, focus constrained or not, immediate/total, overridable); oracle = events of the "
     "same selector without value constraints filtered by 'every constrained capture present in the event "
     "satisfies its reference predicate'; non-trivial = the filter both kept and dropped at least one event; "
-    "distinct = distinct (program shape, selector, input) triples."
+    "distinct = distinct (program shape, selector, input) triples.  "
+    "Part L (hand-written): the same capture name at two levels of one selector, the condition written on the outer or on "
+    "the inner level, with aliased and one-level controls, four predicates, inputs -3..7; oracle = arithmetic filter on the "
+    "variable of the level the condition is written on."
 )
 ASSUMPTIONS = [
     "Reference predicates are written from the property text: every(n,start,end)(v) <=> start<=v<end and (v-start)%n==0; between(a,b)(v) <=> a<=v<b.",
@@ -30,7 +33,10 @@ ASSUMPTIONS = [
     "Part B compares two runs of the same deterministic generated program (constrained vs unconstrained selector).",
     "Total (focus-free) selectors: check_captures applies to all accumulated values of a constrained capture; the reference requires every accumulated value to satisfy the predicate.",
 ]
-MECHANISMS = {}
+MECH_SAME_NAME = "condition-on-inner-capture-evaluated-on-same-named-outer-capture"
+MECHANISMS = {
+    MECH_SAME_NAME: "when two levels of one selector capture the same name (outer(x) > inner(x~gt(0)) > y) the captures are merged by name with the outer one winning, so the condition written on inner's x is evaluated on outer's x: events are delivered although inner's x fails the predicate (and withheld although it holds)",
+}
 MIN_DECIDING = {"quick": 20000, "thorough": 100000}
 EXHAUSTIVE = {}
 SHARD_TIMEOUT = {"quick": 300, "thorough": 1800}
@@ -315,6 +321,69 @@ def check_generator_context(scratch, res):
             res.count("G_generator_context_checks")
 
 
+LEVELS_SRC = """
+def inner(x):
+    y = x * 10
+    return y
+
+def outer(x):
+    z = inner(7 - 2 * x)
+    return z
+"""
+
+
+def check_same_name_levels(scratch, res, known):
+    """The same capture name at two levels of one selector.  A condition belongs to the level it is
+    written on: outer(x~P) > inner(x) > y filters on outer's x, outer(x) > inner(x~P) > y on inner's x
+    (the latter is the known finding, in its own stream); the aliased spellings are the controls."""
+    import importlib.util
+    import os
+
+    from ptera import probing, tools
+
+    path = os.path.join(scratch, "c12levels.py")
+    with open(path, "w") as fh:
+        fh.write(LEVELS_SRC)
+    sp = importlib.util.spec_from_file_location("c12levels", path)
+    mod = importlib.util.module_from_spec(sp)
+    sp.loader.exec_module(mod)
+    env = dict(vars(mod))
+    for name in ("gt", "lt", "gte", "lte", "between", "every"):
+        env[name] = getattr(tools, name)
+    preds = [("gt(2)", lambda v: v > 2), ("lt(0)", lambda v: v < 0), ("between(-3, 4)", lambda v: -3 <= v < 4), ("every(2)", lambda v: v >= 0 and v % 2 == 0)]
+    xs = list(range(-3, 8))
+    for ptxt, pref in preds:
+        for level in ("outer", "inner"):
+            for spelling in ("same-name", "aliased", "only-constrained-level"):
+                if level == "outer":
+                    sel = {"same-name": f"outer(x~{ptxt}) > inner(x) > y", "aliased": f"outer(x~{ptxt}) > inner(x as ix) > y", "only-constrained-level": f"outer(x~{ptxt}) > inner > y"}[spelling]
+                    exp = [(7 - 2 * v) * 10 for v in xs if pref(v)]
+                else:
+                    sel = {"same-name": f"outer(x) > inner(x~{ptxt}) > y", "aliased": f"outer(x as ox) > inner(x~{ptxt}) > y", "only-constrained-level": f"outer > inner(x~{ptxt}) > y"}[spelling]
+                    exp = [(7 - 2 * v) * 10 for v in xs if pref(7 - 2 * v)]
+                res.evaluations += 1
+                res.deciding += 1
+                case = {"part": "L", "selector": sel}
+                try:
+                    got = []
+                    with probing(sel, env=env) as p:
+                        p["y"].subscribe(got.append)
+                        for v in xs:
+                            mod.outer(v)
+                except Exception as e:
+                    res.violation(case, "exception: " + common.fmt_exc(e)[-800:])
+                    continue
+                res.count("L_same_name_level_selectors")
+                res.nontrivial_case("L:" + sel)
+                if got != exp:
+                    why = {"what": "condition evaluated on the wrong level's variable", "selector": sel, "expected_y": exp, "got_y": got}
+                    on_outer = [(7 - 2 * v) * 10 for v in xs if pref(v)]
+                    if level == "inner" and spelling == "same-name" and MECH_SAME_NAME in known and got == on_outer:
+                        res.finding(MECH_SAME_NAME, {"case": case, "why": why})
+                    else:
+                        res.violation(case, why)
+
+
 def part_b(spec, res):
     import importlib.util
     import os
@@ -325,6 +394,7 @@ def part_b(spec, res):
     scratch = spec["scratch"]
     if start == 0:
         check_generator_context(scratch, res)
+        check_same_name_levels(scratch, res, spec.get("known", []))
     for idx in range(start, start + count):
         rnd = rng_for("C12B", spec["seed"], idx)
         src, meta = gen_program(rnd, idx)
